@@ -104,6 +104,14 @@ class Ctx:
         except FileExistsError:
             return False
 
+    def every(self, stride, phase=0):
+        """True for the cases whose index is `phase` modulo `stride`: a costly variant (very large inputs) that runs a
+        fixed, small number of times per run and replays by its index."""
+        hit = self._idx is not None and self._idx >= 0 and self._idx % stride == phase
+        if hit:
+            self.counters["large_size_cases"] += 1
+        return hit
+
     def count(self, name, n=1):
         self.counters[name] += n
 
